@@ -143,6 +143,9 @@ pub(crate) struct RecentSnapshot {
     pub start_line: usize,
     /// Snapshot bytes (oldest -> newest).
     pub bytes: Vec<u8>,
+    /// False when older bytes of the first line have been evicted, i.e. `bytes` begins in the
+    /// middle of a line and columns cannot be mapped onto that line.
+    pub starts_at_line_start: bool,
 }
 
 /// A `Read` wrapper that:
@@ -163,6 +166,9 @@ pub(crate) struct RingReader<R> {
     ring_start_offset: u64,
     // 1-based line number at ring[0] (valid only when ring is non-empty).
     ring_start_line: usize,
+    // Whether ring[0] is the first byte of its line (false once the ring has dropped the
+    // beginning of the line it starts in).
+    ring_starts_at_line_start: bool,
 
     // Read-ahead bytes (only filled by get_recent()).
     //
@@ -193,6 +199,7 @@ impl<R> RingReader<R> {
             ring: FixedRingBuffer::new(),
             ring_start_offset: 0,
             ring_start_line: 1,
+            ring_starts_at_line_start: true,
             stash: FixedRingBuffer::new(),
             returned_total: 0,
         }
@@ -255,12 +262,16 @@ impl<R> RingReader<R> {
         }
 
         let end_offset = start_offset.saturating_add(bytes.len() as u64);
+        // Dropping leading continuation bytes also means the snapshot starts inside a line.
+        let starts_at_line_start =
+            self.ring_starts_at_line_start && start_offset == self.ring_start_offset;
 
         Ok(RecentSnapshot {
             start_offset,
             end_offset,
             start_line,
             bytes,
+            starts_at_line_start,
         })
     }
 
@@ -296,6 +307,7 @@ impl<R> RingReader<R> {
                 if evicted == Some(b'\n') {
                     self.ring_start_line = self.ring_start_line.saturating_add(1);
                 }
+                self.ring_starts_at_line_start = evicted == Some(b'\n');
             }
 
             self.ring.push_back(b);
